@@ -53,6 +53,10 @@ def failing_op(rng, dv):
     attr_sets = [p for p, nd in paths if nd.kind == "set" and nd.via_attrpath and not nd.explicit and len(p) == 1]
     mixed_sets = [p for p, nd in paths if nd.kind == "set" and nd.via_attrpath and nd.explicit and len(p) == 1]
     inherited = [p for p, nd in paths if nd.kind == "leaf" and nd.tokens and nd.tokens[0][0] == "inherit"]
+    if dv.target is not None:
+        # (a name that is inherited *and* bound explicitly is not "only inherited")
+        explicit_names = {b.path[0] for b in dv.target.bindings if b.kind == "bind" and b.path}
+        inherited = [p for p in inherited if len(p) != 1 or p[0] not in explicit_names]
     k = rng.random()
     if mixed_sets and rng.random() < 0.35:
         return E.Op("set", E.spell(rng.choice(mixed_sets)), val, "attrpath-root-overwrite-mixed")
@@ -60,7 +64,10 @@ def failing_op(rng, dv):
         p = rng.choice(inherited)
         return E.Op(rng.choice(["set", "rm"]), E.spell(p + ("deeper",)), val, "through-inherited")
     if k < 0.16:
-        return E.Op("rm", "absent" + str(rng.randrange(99)), "", "missing-key")
+        name = "absent" + str(rng.randrange(99))
+        while name in tree.children:
+            name += "x"
+        return E.Op("rm", name, "", "missing-key")
     if k < 0.30:
         return E.Op(rng.choice(["set", "rm"]), rng.choice(E.MALFORMED_PATHS), val, "malformed-path")
     if k < 0.44 and leaves:
@@ -71,13 +78,16 @@ def failing_op(rng, dv):
     if k < 0.62 and attr_sets:
         return E.Op("rm", E.spell(rng.choice(attr_sets)), "", "attrpath-root-rm")
     if k < 0.76:
-        depth = len(dv.layers) + rng.choice([1, 2, 4]) + (1 if not dv.layers else 0)
-        return E.Op(rng.choice(["set", "rm"]), "@" * depth + "deep" + str(rng.randrange(9)), val,
-                    "missing-scope-layer")
+        depth = len(dv.layers) + rng.choice([1, 1, 2, 4]) + (1 if not dv.layers else 0)
+        layer_names = [b.path[0] for l in dv.layers for b in l if b.kind == "bind" and b.path]
+        name = rng.choice(layer_names) if layer_names and rng.random() < 0.6 else "deep" + str(rng.randrange(9))
+        return E.Op(rng.choice(["set", "rm"]), "@" * depth + E.spell((name,)), val, "missing-scope-layer")
     if k < 0.80:
         return E.Op("rm", "@nolayer" + str(rng.randrange(9)), "", "missing-scope-key")
     if k < 0.94:
-        return E.Op("set", "fresh" + str(rng.randrange(99)), rng.choice(E.BAD_VALUES), "invalid-value")
+        at = rng.choice(["", "", "@", "@"]) if dv.target is not None else ""
+        tail = rng.choice(["", "", ".sub"])
+        return E.Op("set", at + "fresh" + str(rng.randrange(99)) + tail, rng.choice(E.BAD_VALUES), "invalid-value")
     return E.Op("rm", "@@", "", "scope-without-name")
 
 
@@ -133,10 +143,23 @@ def run_shard(spec):
             continue
         failures_since_sync = 0
         hist = []
+        # shadow: a second object that receives only the operations the live object accepted; if
+        # rejected edits leave nothing behind, both behave alike for the rest of the history
+        try:
+            shadow = E.LiveDoc(text)
+            longlive = E.LiveDoc(text)   # never re-synchronised, receives every operation
+        except Exception:  # noqa: BLE001
+            shadow = longlive = None
+        total_failures = 0
+        followups: list = []
         for si in range(rng.randrange(3, 26)):
             cur_text = live.text
             dv = A.decode(cur_text)
-            if dv.target is not None and rng.random() < 0.45:
+            if followups:
+                # stay in the neighbourhood of the last rejected edit: what it may have left behind
+                # shows when its path, its parents and its root are edited next
+                op = followups.pop(0)
+            elif dv.target is not None and rng.random() < 0.45:
                 ops = E.choose_ops(rng, dv, 1, failing=0.0)
                 op = ops[0] if ops else failing_op(rng, dv)
             else:
@@ -156,6 +179,24 @@ def run_shard(spec):
                     "failures_before": str(min(failures_since_sync, 3))}
             base.update(B.mixed_keys(dv, op.npath))
             keys = []
+            if longlive is not None and shadow is not None:
+                # the never re-synchronised pair: `longlive` gets every operation, `shadow` only those
+                # that `longlive` accepted; successes (and their hidden state) are shared, rejections
+                # are not, so any divergence is what a rejected edit left behind
+                rl = longlive.apply(op)
+                if rl.exc_type is None:
+                    rs = shadow.apply(op)
+                    obs["shadow_steps"] = obs.get("shadow_steps", 0) + 1
+                    if total_failures and semantic_digest(rs) != semantic_digest(rl):
+                        k = dict(base)
+                        k["effect"] = "history-with-rejected-edits-diverges"
+                        k["shadow"] = rs.exc_type or "ok"
+                        keys.append(k)
+                        longlive = shadow = None
+                    elif rs.exc_type is not None:
+                        longlive = shadow = None
+                else:
+                    total_failures += 1
             if twin is not None:
                 rt = twin.apply(op)
                 obs["twin_steps_after_rejection"] += 1
@@ -188,6 +229,22 @@ def run_shard(spec):
                                   "stdout": "empty" if stdout == "" else "non-empty"})
                         keys.append(k)
                 failures_since_sync += 1
+                if not followups and rng.random() < 0.35:
+                    try:
+                        depth_, segs_ = M.parse_npath(op.npath)
+                        at_ = "@" * depth_
+                        v_ = rng.choice(E.VALUE_POOL)
+                        if len(segs_) >= 2:
+                            followups = [E.Op("rm", at_ + E.spell(tuple(segs_[:-1])), "", "followup-rm-parent"),
+                                         E.Op("set", at_ + E.spell(tuple(segs_[:1])), v_, "followup-set-root"),
+                                         E.Op("set", at_ + E.spell(tuple(segs_[:1]) + ("q",)), v_, "followup-set-under-root")]
+                            rng.shuffle(followups)
+                            followups = followups[: rng.choice([1, 2, 3])]
+                        else:
+                            followups = [E.Op("set", at_ + E.spell(tuple(segs_)), v_, "followup-set-same"),
+                                         E.Op("rm", at_ + E.spell(tuple(segs_)), "", "followup-rm-same")][: rng.choice([1, 2])]
+                    except Exception:  # noqa: BLE001
+                        followups = []
             else:
                 if op.cls in MUST_BE_REFUSED:
                     # built so that it cannot be applied, for a documented reason
